@@ -190,9 +190,18 @@ class Ctx:
             out.pop()
         return p.returncode, out, p.stderr
 
-    def run_lines_robust(self, exe, args, lines, timeout=3000, env=None):
+    def run_lines_robust(self, exe, args, lines, timeout=3000, env=None, workers=1):
         """Like run_lines, but if the process dies (abort, stack overflow) bisects: the dying
-        line is answered with `err abort` and the run continues after it."""
+        line is answered with `err abort` and the run continues after it.  `workers` > 1 splits the
+        lines into contiguous chunks run by that many processes at once (only for streams whose
+        lines are independent of each other and not timed)."""
+        if workers > 1 and len(lines) >= 4 * workers:
+            from concurrent.futures import ThreadPoolExecutor
+            n = (len(lines) + workers - 1) // workers
+            chunks = [lines[i:i + n] for i in range(0, len(lines), n)]
+            with ThreadPoolExecutor(max_workers=workers) as ex:
+                parts = list(ex.map(lambda c: self.run_lines_robust(exe, args, c, timeout=timeout, env=env), chunks))
+            return [x for part in parts for x in part]
         res = []
         i = 0
         while i < len(lines):
